@@ -30,6 +30,7 @@ class ConcreteAPI(object):
         self._tmp = []
         self._traph_mod = None
         self.used = set()
+        self.soft = []
 
     # -- inputs -----------------------------------------------------------------
     def _get(self, name):
@@ -71,6 +72,10 @@ class ConcreteAPI(object):
 
     def fail(self, label, detail=None):
         raise CheckFailed(label, detail)
+
+    def soft_fail(self, label, detail=None):
+        if not self.soft:
+            self.soft.append((label, detail))
 
     def reach(self, label):
         pass
@@ -193,6 +198,8 @@ def run_scenario(harness, params, scenario, repo="/repo"):
         with warnings.catch_warnings():
             warnings.simplefilter("ignore")
             harness(api)
+        if api.soft:
+            out.update(status="violation", label=api.soft[0][0], detail=api.soft[0][1])
     except CheckFailed as f:
         out.update(status="violation", label=f.label, detail=f.detail)
     except ScenarioMismatch as m:
